@@ -594,36 +594,44 @@ class SessionRig:
         except (OSError, ValueError):
             return False
 
+    def quiet(self) -> bool:
+        """Nothing is runnable and no registered socket is ready: only a timer or a new event moves anything."""
+        if self.loop._ready:
+            return False
+        try:
+            return not self.loop._selector.select(0)
+        except (OSError, ValueError):
+            return True
+
+    def passive_spin(self) -> bool:
+        """`while not self.proto: await asyncio.sleep(0)` of a passive peer (a busy loop: never quiet)."""
+        return bool(self.cfg['passive']) and self.in_run and not self.in_main and self.reading is None and self.connect_fut is None and self.peer.proto is None
+
     def stable(self) -> bool:
         """The peer coroutine is blocked where only a new event (or a long timer) moves it."""
         if self.task is None or self.task.done():
             return True
-        if not self.in_run:
-            return True
-        if self.connect_fut is not None:
-            return True
-        if self.reading is not None:
-            io = self.reading.io
-            if io is None:
-                return True  # a read left pending on a closed connection (stale await)
-            return not self._readable(io)
-        if self.reading is None and self.peer.proto is None and self.cfg['passive'] and self.peer.fsm.state == FSM.ACTIVE:
-            return True
-        return False
+        if self.passive_spin():
+            return len(self.loop._ready) <= 1
+        if not self.quiet():
+            return False
+        # pending connect / pending read (possibly on a closed connection: stale await) / restart loop
+        return (not self.in_run) or self.connect_fut is not None or self.reading is not None
 
     async def settle(self) -> None:
         """Step the loop (no time passes, except the 1 ms pause between two main-loop iterations)."""
         calm = 0
-        for i in range(4000):
+        for i in range(20000):
             if self.stable():
                 calm += 1
-                if calm >= 3:
+                if calm >= 2:
                     self.drain()
                     return
-            else:
-                calm = 0
-            if i % 40 == 39:
-                await asyncio.sleep(0.0011)
+                await asyncio.sleep(0)
+                continue
+            calm = 0
+            if self.quiet():
+                await asyncio.sleep(0.0011)  # the peer is in a short timed sleep (main loop pacing)
             else:
                 await asyncio.sleep(0)
         raise RigError(f'peer did not settle: in_run={self.in_run} in_main={self.in_main} reading={self.reading} fsm={self.peer.fsm.state.name}')
@@ -645,6 +653,7 @@ class SessionRig:
 
     async def event(self, ev: list) -> list[str]:
         self.bucket = []
+        self.sent_ok = False
         k = ev[0]
         peer = self.peer
         if k == 'start':
@@ -669,6 +678,7 @@ class SessionRig:
             if self.remote_open.get(cid):
                 try:
                     self.remote_socks[cid].sendall(self.remote.bytes_of(kind))
+                    self.sent_ok = True
                 except OSError:
                     pass
                 self._wait_delivery(cid)
@@ -699,7 +709,9 @@ class SessionRig:
             if self.in_read_open:
                 await self.advance(61.0, lambda: not self.in_read_open, step=0.5)
         elif k == 'holdExpired':
-            if self.in_main or (self.in_run and self.peer.fsm.state == FSM.OPENCONFIRM and self.reading is not None):
+            if min(self.cfg['hold'], self.cfg['peer_hold']) == 0:
+                pass  # negotiated hold time 0: there is no timer
+            elif self.in_main or (self.in_run and self.peer.fsm.state == FSM.OPENCONFIRM and self.reading is not None):
                 hold = min(self.cfg['hold'], self.cfg['peer_hold'])
                 was_main = self.in_main
                 await self.advance(hold + 3.0, lambda: (was_main and not self.in_main) or not self.in_run, step=0.05)
@@ -731,8 +743,10 @@ class SessionRig:
     async def _run_script(self, script: list[list]) -> list[list[str]]:
         self.task = self.loop.create_task(self.peer.run())
         out = []
+        self.sent: list[bool] = []
         for ev in script:
             out.append(await self.event(ev))
+            self.sent.append(self.sent_ok)
         return out
 
     def run(self, script: list[list]) -> list[list[str]]:
@@ -813,4 +827,619 @@ def run_script(script: list[list], cfg: dict | None = None) -> dict:
         'tx_raw': rig.tx,
         'api': rig.api,
         'remote_open': dict(rig.remote_open),
+        'sent': list(rig.sent),
     }
+
+
+# ---------------------------------------------------------------------------------------------
+# the model side (drv_session) and the comparison
+
+
+def model_cfg_line(cfg: dict | None) -> str:
+    c = dict(DEFAULT_CFG)
+    c.update(cfg or {})
+    hold0 = min(c['hold'], c['peer_hold']) == 0
+    return f"session init {int(bool(c['passive']))} {int(c['attempts'])} {int(hold0)} {int(bool(c['graceful']))} {int(c['routes'] > 0)}"
+
+
+def model_line(ev: list) -> str:
+    if ev[0] == 'announce':
+        return 'session ev announce'
+    return 'session ev ' + ' '.join(str(x) for x in ev)
+
+
+def parse_bucket(line: str) -> list[str]:
+    return [] if line == '-' else line.split(';')
+
+
+def run_model_batch(cases: list[tuple[list[list], dict | None]]) -> list[list[list[str]]]:
+    """Buckets of the Lean model for many (script, cfg) in one driver process."""
+    from harness import common
+
+    lines: list[str] = []
+    for script, cfg in cases:
+        lines.append(model_cfg_line(cfg))
+        lines += [model_line(ev) for ev in script]
+    out = common.run_driver('drv_session', lines)
+    res = []
+    i = 0
+    for script, _ in cases:
+        if out[i] != 'ok':
+            raise RigError(f'drv_session refused init: {out[i]}')
+        b = out[i + 1 : i + 1 + len(script)]
+        if 'bad-op' in b:
+            raise RigError(f'drv_session could not parse an event of {script}')
+        res.append([parse_bucket(x) for x in b])
+        i += 1 + len(script)
+    return res
+
+
+def canon_bucket(bucket: list[str]) -> list[str]:
+    """What is compared: the periodic KEEPALIVE of the established session is M-Timer's business
+    (C12), and a batch of UPDATEs / the End-of-RIB markers of all families count once each."""
+    out: list[str] = []
+    for it in bucket:
+        w = it.split(' ')
+        if w[0] == 'send' and w[2] == 'KEEPALIVE' and w[-1] == 'ESTABLISHED':
+            continue
+        if w[0] == 'send' and w[2] in ('UPDATE', 'EOR') and out and out[-1] == it:
+            continue
+        out.append(it)
+    return out
+
+
+def first_difference(script: list[list], impl: list[list[str]], model: list[list[str]]) -> tuple[int, list[str], list[str]] | None:
+    for i, (a, b) in enumerate(zip(impl, model)):
+        ca, cb = canon_bucket(a), canon_bucket(b)
+        if ca != cb:
+            return i, ca, cb
+    return None
+
+
+# ---------------------------------------------------------------------------------------------
+# scripts from the model's own alphabet
+
+FAULT_KINDS = ['badMarker', 'badLength', 'tooLong', 'unknownType', 'kaLen20', 'rrBadLen', 'notifBadLen', 'openShort', 'openVersion', 'openOptParam', 'updAttrLen', 'updNlri']
+SEM_KINDS = ['openAs', 'openId0', 'openHold1']
+PLAIN_KINDS = ['open', 'openLow', 'keepalive', 'update', 'updMissing', 'updAsPath', 'notification', 'refresh', 'operational']
+
+STAGES: dict[str, tuple[list[list], int]] = {
+    # name: (prefix, connection id in use afterwards; 0 = none)
+    'backoff': ([], 0),
+    'connecting': ([['start']], 0),
+    'adopted-idle': ([['incoming']], 1),
+    'adopted-connecting': ([['start'], ['incoming']], 1),
+    'opensent': ([['start'], ['connectOk']], 1),
+    'openconfirm': ([['start'], ['connectOk'], ['recv', 1, 'open']], 1),
+    'openconfirm-low': ([['start'], ['connectOk'], ['recv', 1, 'openLow']], 1),
+    'established-fresh': ([['start'], ['connectOk'], ['recv', 1, 'open'], ['recv', 1, 'keepalive']], 1),
+    'established': ([['start'], ['connectOk'], ['recv', 1, 'open'], ['recv', 1, 'keepalive'], ['tick'], ['tick']], 1),
+    'second-session': ([['start'], ['connectOk'], ['recv', 1, 'open'], ['recv', 1, 'keepalive'], ['tick'], ['eof', 1], ['start'], ['connectOk'], ['recv', 2, 'open'], ['recv', 2, 'keepalive']], 2),
+}
+
+
+def alphabet(c: int) -> list[list]:
+    """Every event of the model's alphabet, messages addressed to connection c (1 if none yet)."""
+    c = c or 1
+    evs: list[list] = [['start'], ['connectOk'], ['connectFail'], ['incoming'], ['eof', c], ['sockError', c], ['openwaitExpired'], ['holdExpired'], ['tick'], ['teardown', 2], ['teardown', 4], ['reestablish'], ['stop'], ['queueRefresh'], ['announce', 1]]
+    evs += [['recv', c, k] for k in KINDS]
+    return evs
+
+
+TAIL = [['tick'], ['start'], ['connectOk']]
+
+
+def systematic_scripts() -> list[tuple[list[list], dict, str]]:
+    """Every event at every stage of establishment and operation, followed by what lets the peer go on."""
+    out = []
+    for stage, (prefix, c) in STAGES.items():
+        for ev in alphabet(c):
+            cfg: dict = {'routes': 2}
+            if ev[0] == 'holdExpired':
+                cfg['hold'] = 9
+            out.append((prefix + [ev] + TAIL, cfg, f'{stage}/{ev[0]}' + (f':{ev[2]}' if ev[0] == 'recv' else '')))
+    # configuration variants on the events they matter for
+    for stage in ('connecting', 'opensent', 'openconfirm', 'established'):
+        prefix, c = STAGES[stage]
+        for ev in [['eof', c], ['recv', c, 'notification'], ['recv', c, 'badMarker'], ['connectFail'], ['stop'], ['teardown', 3]]:
+            out.append((prefix + [ev] + TAIL, {'attempts': 1, 'routes': 1}, f'attempts1/{stage}/{ev[0]}'))
+            out.append((prefix + [ev] + TAIL, {'attempts': 2, 'routes': 1}, f'attempts2/{stage}/{ev[0]}'))
+        for ev in [['teardown', 2], ['reestablish'], ['stop']]:
+            out.append((prefix + [ev] + TAIL, {'graceful': True}, f'graceful/{stage}/{ev[0]}'))
+    pas = [['start']]
+    for ev in alphabet(1):
+        out.append((pas + [ev] + [['incoming'], ['recv', 2 if ev[0] == 'incoming' else 1, 'open']], {'passive': True}, f'passive-wait/{ev[0]}'))
+    pas2 = [['start'], ['incoming'], ['recv', 1, 'open'], ['recv', 1, 'keepalive'], ['tick']]
+    for ev in [['eof', 1], ['incoming'], ['stop'], ['teardown', 2], ['recv', 1, 'notification'], ['holdExpired']]:
+        out.append((pas2 + [ev] + [['tick'], ['start'], ['incoming']], {'passive': True, 'hold': 9}, f'passive-established/{ev[0]}'))
+    # hold timer by silence, negotiated hold time 3 / 9 / 90 / 0
+    est = STAGES['established'][0]
+    for hold, peer_hold in [(3, 180), (9, 9), (180, 90), (0, 180), (90, 0)]:
+        out.append((est + [['holdExpired'], ['start']], {'hold': hold, 'peer_hold': peer_hold}, f'hold/{hold}-{peer_hold}'))
+        out.append((STAGES['openconfirm'][0] + [['holdExpired'], ['recv', 1, 'keepalive'], ['tick']], {'hold': hold, 'peer_hold': peer_hold}, f'hold-openconfirm/{hold}-{peer_hold}'))
+    out.append((est + [['recv', 1, 'keepalive'], ['recv', 1, 'keepalive'], ['start']], {'hold': 0}, 'hold0/two-keepalives'))
+    return out
+
+
+def parse_state(line: str) -> dict:
+    w = line.split(' ')
+    pc = w[1].split(':')
+    conn = w[2].split(':')
+    return {
+        'fsm': w[0],
+        'pc': pc[0],
+        'await': int(pc[1]) if len(pc) > 1 else 0,
+        'conn': int(conn[0]) if conn[0] != '-' else 0,
+        'pending': w[-1].split('=')[1] if w[-1].startswith('pend=') else '',
+    }
+
+
+def random_script(rng: Any, drv: Any, maxlen: int, fault_weight: float, cfg: dict) -> tuple[list[list], list[list[str]]]:
+    """A script drawn from the alphabet, guided by the model's own state (asked from the driver)
+    so that most events are enabled where they are issued; one in ten is drawn blindly."""
+    script: list[list] = []
+    buckets: list[list[str]] = []
+    if drv.ask(model_cfg_line(cfg)) != 'ok':
+        raise RigError('drv_session refused init')
+    nconn = 0
+    ticks = 0
+    n = rng.randrange(3, maxlen + 1)
+    hold = min(cfg.get('hold', 180), cfg.get('peer_hold', 180))
+    while len(script) < n:
+        st = parse_state(drv.ask('session state'))
+        c = st['conn'] or st['await'] or max(nconn, 1)
+        x = rng.random()
+        pc = st['pc']
+
+        def recv(kinds: list[str]) -> list:
+            return ['recv', c, rng.choice(kinds)]
+
+        fault = lambda: recv(FAULT_KINDS + SEM_KINDS + ['operational', 'notification'])  # noqa: E731
+        if x < 0.10:
+            ev = rng.choice(alphabet(rng.choice([c, max(1, c - 1), nconn + 1])))
+        elif pc in ('backoff', 'done'):
+            ev = rng.choices([['start'], ['incoming'], ['stop'], ['teardown', rng.choice([2, 3, 4, 6])], ['reestablish'], ['queueRefresh'], ['announce', 1], recv(PLAIN_KINDS), ['eof', c], ['sockError', c]], [60, 10, 3, 4, 3, 4, 4, 6, 3, 3])[0]
+        elif pc == 'connecting':
+            ev = rng.choices([['connectOk'], ['connectFail'], ['incoming'], ['stop'], ['teardown', 2], ['reestablish'], ['tick']], [55, 20, 12, 4, 4, 3, 2])[0]
+        elif pc == 'passiveWait':
+            ev = rng.choices([['incoming'], ['stop'], ['teardown', 2], ['start'], ['tick']], [75, 8, 7, 5, 5])[0]
+        elif pc == 'awaitOpen':
+            ev = rng.choices(
+                [recv(['open', 'open', 'openLow']), fault(), recv(['keepalive', 'update', 'refresh']), ['eof', c], ['sockError', c], ['incoming'], ['openwaitExpired'], ['teardown', rng.choice([2, 4])], ['reestablish'], ['stop'], ['queueRefresh'], ['announce', 1]],
+                [45, 14 * fault_weight, 5 * fault_weight, 4, 3, 8, 4, 4, 2, 3, 3, 3],
+            )[0]
+        elif pc == 'awaitKa':
+            ev = rng.choices(
+                [recv(['keepalive']), fault(), recv(['open', 'update', 'refresh']), ['eof', c], ['sockError', c], ['incoming'], ['holdExpired'], ['teardown', rng.choice([2, 4])], ['reestablish'], ['stop'], ['queueRefresh'], ['announce', 1]],
+                [50, 12 * fault_weight, 5 * fault_weight, 4, 3, 8, 3, 4, 2, 3, 3, 3],
+            )[0]
+        else:  # mainLoop
+            quiet = st['pending'] in ('', '000')
+            ev = rng.choices(
+                [['tick'], recv(['keepalive', 'update', 'updMissing', 'updAsPath', 'refresh']), fault(), recv(['open', 'openLow']), ['eof', c], ['sockError', c], ['incoming'], ['holdExpired'] if quiet and hold else ['tick'], ['teardown', rng.choice([2, 3, 4, 6])], ['reestablish'], ['stop'], ['queueRefresh'], ['announce', 1]],
+                [25, 18, 10 * fault_weight, 3 * fault_weight, 4, 3, 5, 3, 7, 3, 3, 5, 5],
+            )[0]
+        if ev[0] == 'tick':
+            ticks += 1
+            if hold and ticks > 2 * hold:
+                continue  # keep the scripted silence below the hold time
+        if ev[0] in ('connectOk', 'incoming'):
+            nconn += 1
+        script.append(ev)
+        buckets.append(parse_bucket(drv.ask(model_line(ev))))
+    return script, buckets
+
+
+# ---------------------------------------------------------------------------------------------
+# oracles on the OBSERVED trace (independent of the model)
+
+CONNECTED = ('CONNECT', 'OPENSENT', 'OPENCONFIRM', 'ESTABLISHED')
+OPENISH = ('open', 'openLow', 'openAs', 'openId0', 'openHold1')
+
+
+def oracle_c05(script: list[list], res: dict, rfc_table: set) -> list[tuple[str, str]]:
+    """(rule, description) for every rule of C05 the observed trace breaks."""
+    bad: list[tuple[str, str]] = []
+    state = 'IDLE'
+    open_sent: set[int] = set()  # connections on which we wrote our OPEN
+    closed: set[int] = set()
+    peer_open: set[int] = set()  # the remote wrote a valid OPEN on it
+    peer_ka: set[int] = set()  # ... and then a KEEPALIVE
+    current = 0
+    up = False
+    for ev, bucket, sent in zip(script, res['buckets'], res['sent']):
+        if ev[0] == 'recv' and sent:
+            if ev[2] in ('open', 'openLow'):
+                peer_open.add(ev[1])
+            if ev[2] == 'keepalive' and ev[1] in peer_open:
+                peer_ka.add(ev[1])
+        left = False
+        for it in bucket:
+            w = it.split(' ')
+            if w[0] == 'fsm':
+                a, b = w[1].split('>')
+                if a != state:
+                    bad.append(('fsm-chain', f'FSM.change from {a} while the previous change left {state}'))
+                if (a, b) not in rfc_table:
+                    bad.append(('transition', f'{a}->{b} is not an RFC 4271 transition'))
+                if b == 'ESTABLISHED':
+                    if current not in open_sent:
+                        bad.append(('established-without-open-sent', f'ESTABLISHED on connection {current} without having sent OPEN'))
+                    if current not in peer_open:
+                        bad.append(('established-without-peer-open', f'ESTABLISHED on connection {current} without a valid peer OPEN'))
+                    if current not in peer_ka:
+                        bad.append(('established-without-keepalive', f'ESTABLISHED on connection {current} without a KEEPALIVE from the peer'))
+                if a in CONNECTED and b not in CONNECTED:
+                    left = True
+                state = b
+            elif w[0] == 'send':
+                c, kind, st = int(w[1]), w[2], w[-1]
+                if kind == 'OPEN':
+                    open_sent.add(c)
+                    current = c
+                if kind in ('UPDATE', 'EOR', 'REFRESH') and st != 'ESTABLISHED':
+                    bad.append(('send-outside-established', f'{kind} written on connection {c} in state {st}'))
+                if st != state:
+                    bad.append(('label', f'write labelled {st} while the trace says {state}'))
+            elif w[0] == 'close':
+                closed.add(int(w[1]))
+            elif w[0] == 'up':
+                if up:
+                    bad.append(('up-up', 'API "up" twice without a "down" in between'))
+                up = True
+            elif w[0] == 'down':
+                up = False
+        if left:
+            still = sorted(c for c in open_sent if c not in closed)
+            if still:
+                bad.append(('leave-without-close', f'left a connected state with connection(s) {still} still open'))
+    return bad
+
+
+def cause_of(ev: list, state: str, hold: int) -> tuple[str, bool] | None:
+    """(driver words of the Cause, must the session end?) for an event arriving in FSM `state`
+    on the connection in use; None = no cause (the event is fine in that state)."""
+    k = ev[0]
+    if k == 'recv':
+        kind = ev[2]
+        if kind in FAULT_KINDS:
+            return f'fault {kind}', True
+        if kind == 'notification':
+            return None
+        if kind == 'operational':
+            return 'operational', False  # ignoring an unsupported message is tolerated, answering wrongly is not
+        if state == 'OPENSENT':
+            if kind in SEM_KINDS:
+                return f'sem {kind}', True
+            if kind in ('open', 'openLow'):
+                return None
+            return f'unexpected {kind}', True
+        if state == 'OPENCONFIRM':
+            return (None if kind == 'keepalive' else (f'unexpected {kind}', True))
+        if state == 'ESTABLISHED':
+            if kind in OPENISH:
+                return f'unexpected {kind}', True
+            return None
+        return None
+    if k == 'holdExpired' and hold and state in ('ESTABLISHED', 'OPENCONFIRM'):
+        return 'holdTimer', state == 'ESTABLISHED'  # OPENCONFIRM: C12 (F18)
+    if k == 'openwaitExpired' and state == 'OPENSENT':
+        return 'openTimer', True
+    return None
+
+
+def oracle_c10(script: list[list], res: dict, cfg: dict, error_class: Any) -> list[tuple[str, str]]:
+    """(rule, description) for every rule of C10 the observed trace breaks.
+
+    Per bucket: which connection was in use and in which state when the event arrived (from the
+    observed FSM changes and writes only), what ExaBGP then wrote on it, whether it closed it."""
+    bad: list[tuple[str, str]] = []
+    c = dict(DEFAULT_CFG)
+    c.update(cfg or {})
+    hold = min(c['hold'], c['peer_hold'])
+    state = 'IDLE'
+    current = 0  # connection on which our OPEN was last written and which is not closed
+    notified: set[int] = set()
+    got_notification: set[int] = set()
+    closed: set[int] = set()
+    teardown_pending = False
+    for ev, bucket in zip(script, res['buckets']):
+        st0, cur0 = state, current
+        writes: list[tuple[int, str, str]] = []  # (conn, kind words, state label)
+        closed_now: list[int] = []
+        for it in bucket:
+            w = it.split(' ')
+            if w[0] == 'fsm':
+                state = w[1].split('>')[1]
+            elif w[0] == 'send':
+                cid, kind = int(w[1]), ' '.join(w[2:-1])
+                writes.append((cid, kind, w[-1]))
+                if cid in notified:
+                    bad.append(('after-notification', f'{kind} written on connection {cid} after a NOTIFICATION was written on it'))
+                if cid in got_notification:
+                    bad.append(('after-received-notification', f'{kind} written on connection {cid} after the peer sent a NOTIFICATION on it'))
+                if kind.startswith('NOTIFICATION'):
+                    notified.add(cid)
+                    if w[-1] in ('IDLE', 'ACTIVE'):
+                        bad.append(('notification-outside-session', f'{kind} written on connection {cid} in state {w[-1]}'))
+                if kind == 'OPEN':
+                    current = cid
+            elif w[0] == 'close':
+                closed.add(int(w[1]))
+                closed_now.append(int(w[1]))
+                if int(w[1]) == current:
+                    current = 0
+        if ev[0] in ('teardown', 'reestablish', 'stop'):
+            teardown_pending = True
+        # the remote's NOTIFICATION (well-formed or not) on the connection in use
+        if ev[0] == 'recv' and ev[2] in ('notification', 'notifBadLen') and ev[1] == cur0 and st0 in CONNECTED[1:]:
+            got_notification.add(ev[1])
+            mine = [k for cid, k, _ in writes if cid == ev[1]]
+            if mine:
+                bad.append(('reply-to-notification', f'the peer sent a NOTIFICATION ({ev[2]}) and was answered with {mine}'))
+            continue
+        addressed = ev[0] != 'recv' or ev[1] == cur0
+        cause = cause_of(ev, st0, hold) if (cur0 and addressed and st0 in CONNECTED[1:]) else None
+        if cause is None:
+            continue
+        words, must_end = cause
+        mine = [k for cid, k, _ in writes if cid == cur0 and not (k == 'KEEPALIVE' or (k in ('UPDATE', 'EOR', 'REFRESH') and ev[0] == 'holdExpired'))]
+        ended = cur0 in closed_now
+        if not ended:
+            if must_end and not (ev[0] == 'holdExpired' and st0 == 'OPENCONFIRM'):
+                bad.append(('unanswered', f'{words} in {st0}: the session goes on, nothing is written'))
+            continue
+        if teardown_pending and ev[0] == 'recv' and words.startswith('unexpected') is False and mine and mine[-1].startswith('NOTIFICATION 6 '):
+            continue  # the API asked for the session to end at the same moment
+        allowed = error_class(words, st0)
+        if not allowed:
+            if mine:
+                bad.append(('reply-to-notification', f'{words}: answered with {mine}'))
+            continue
+        if len(mine) != 1 or not mine[0].startswith('NOTIFICATION '):
+            bad.append(('not-one-notification', f'{words} in {st0}: wrote {mine} before closing'))
+            continue
+        code, sub = mine[0].split(' ')[1:3]
+        if f'{code}/{sub}' not in allowed:
+            bad.append(('wrong-code', f'{words} in {st0}: NOTIFICATION {code}/{sub}, the RFC class is {" or ".join(allowed)}'))
+    # what reached the wire, per connection: one NOTIFICATION at most, last
+    for cid, kinds in res['rx'].items():
+        n = [i for i, k in enumerate(kinds) if k.startswith('NOTIFICATION')]
+        if len(n) > 1:
+            bad.append(('two-notifications', f'connection {cid}: {len(n)} NOTIFICATIONs on the wire'))
+        if n and n[0] != len(kinds) - 1:
+            bad.append(('after-notification', f'connection {cid}: {kinds[n[0] + 1 :]} on the wire after the NOTIFICATION'))
+    return bad
+
+
+def shrink_script(script: list[list], cfg: dict, still_bad: Any) -> list[list]:
+    """Delta debugging on the event list; `still_bad(script)` re-runs the rig."""
+    cur = list(script)
+    n = 2
+    while len(cur) >= 2:
+        chunk = max(1, len(cur) // n)
+        reduced = False
+        for i in range(0, len(cur), chunk):
+            cand = cur[:i] + cur[i + chunk :]
+            if cand and still_bad(cand):
+                cur = cand
+                n = max(n - 1, 2)
+                reduced = True
+                break
+        if not reduced:
+            if chunk == 1:
+                break
+            n = min(n * 2, len(cur))
+    return cur
+
+
+def renumber(script: list[list]) -> list[list]:
+    """Connection ids follow the order of creation: after events were dropped, rename them."""
+    return script
+
+
+def run_case(script: list[list], cfg: dict | None) -> dict:
+    """Rig result reduced to what can cross a process boundary."""
+    try:
+        r = run_script(script, cfg)
+    except RigError as e:
+        return {'error': str(e)}
+    except Exception as e:  # noqa: BLE001  (the rig must not take the check down)
+        import traceback
+
+        return {'error': f'{type(e).__name__}: {e}', 'tb': traceback.format_exc()[-1500:]}
+    return {'buckets': r['buckets'], 'rx': r['rx'], 'tx': r['tx'], 'api': [a for _, a in r['api']], 'sent': r['sent'], 'wire': [(round(t, 3), c, k, s) for t, c, k, s in r['wire']]}
+
+
+# ---------------------------------------------------------------------------------------------
+# the run of a property check (shared by C05 and C10)
+
+
+def _worker(job: tuple[int, list[list], dict]) -> tuple[int, dict]:
+    i, script, cfg = job
+    return i, run_case(script, cfg)
+
+
+def load_corpus(prop: str) -> list[tuple[list[list], dict, str]]:
+    import json
+    from harness import common
+
+    d = common.VERIF / 'corpus' / prop
+    out = []
+    if d.exists():
+        for f in sorted(d.glob('*.json')):
+            c = json.loads(f.read_text())
+            out.append((c['script'], c.get('cfg', {}), 'corpus/' + f.stem))
+    return out
+
+
+def canon_failure(rule: str, script: list[list], cfg: dict) -> dict:
+    keep = {k: v for k, v in sorted(cfg.items()) if DEFAULT_CFG.get(k) != v and k != 'routes'}
+    return {'rule': rule, 'script': script, 'cfg': keep}
+
+
+def run_property(ctx: Any, prop: str, fault_weight: float) -> None:
+    """Corpus, systematic scripts (every event at every stage), random scripts guided by the
+    model; each run on the rig, compared bucket by bucket with drv_session, and judged by the
+    property's own oracle on the observed trace."""
+    import json
+    from harness import common
+    from harness.common import Disagreement, Failure
+
+    rng = ctx.rng
+    quick = ctx.tier == 'quick'
+    n_random = 150 if quick else 5000
+    maxlen = 12 if quick else 40
+    ctx.rule = (
+        'event scripts over the alphabet of M-Session (start, connectOk/Fail, incoming, recv of 26 message classes, eof, sockError, openwait/hold expiry, tick, teardown, reestablish, stop, '
+        'queueRefresh, announce): every event at each of 10 stages of establishment and operation (+ configuration variants tcp.attempts 1/2, passive, graceful-restart, hold time 3/9/90/0), '
+        f'plus {n_random} random scripts <= {maxlen} events guided by the model state; non-trivial = our OPEN reached the wire and at least one further event produced a reaction of the peer; '
+        'distinct = distinct (script, configuration)'
+    )
+    # the specification tables come from the Lean side (hand-written RFC tables in Model/Session.lean)
+    spec = common.Driver('drv_session') if ctx.driver_ok else None
+    rfc_table: set = set()
+    ec_cache: dict = {}
+    if spec is not None:
+        rfc_table = {tuple(x.split('>')) for x in spec.ask('session rfctable').split(',')}
+
+    def error_class(words: str, state: str) -> list[str]:
+        key = (words, state)
+        if key not in ec_cache:
+            if spec is None:
+                return ['?']
+            out = spec.ask(f'session errorclass {words} {state}')
+            if out == 'bad-op':
+                raise RigError(f'drv_session does not know the cause {words!r}')
+            ec_cache[key] = [] if out == '-' else out.split(',')
+        return ec_cache[key]
+
+    cases: list[tuple[list[list], dict, str, list | None]] = []
+    for script, cfg, origin in load_corpus('C05') + load_corpus('C10'):
+        cases.append((script, cfg, origin, None))
+    for script, cfg, origin in systematic_scripts():
+        cases.append((script, cfg, 'systematic:' + origin, None))
+    if spec is not None:
+        variants = [{}, {}, {'routes': 3}, {'routes': 3, 'hold': 9}, {'attempts': 1}, {'attempts': 3, 'routes': 1}, {'passive': True}, {'graceful': True, 'routes': 1}, {'hold': 3, 'routes': 1}, {'hold': 0}, {'hold': 180, 'peer_hold': 90}]
+        for i in range(n_random):
+            cfg = dict(rng.choice(variants))
+            script, model_b = random_script(rng, spec, maxlen, fault_weight, cfg)
+            cases.append((script, cfg, 'random', model_b))
+
+    # implementation side: in-process (quick) or over 16 processes (thorough)
+    jobs = [(i, c[0], c[1]) for i, c in enumerate(cases)]
+    results: dict[int, dict] = {}
+    t0 = _realtime.time()
+    if quick:
+        for job in jobs:
+            if ctx.time_left() < 15:
+                ctx.notes.append(f'budget reached after {len(results)} of {len(jobs)} scripts')
+                break
+            i, r = _worker(job)
+            results[i] = r
+    else:
+        import multiprocessing as mp
+
+        with mp.get_context('fork').Pool(16) as pool:
+            for i, r in pool.imap_unordered(_worker, jobs, chunksize=8):
+                results[i] = r
+                if ctx.time_left() < 60:
+                    ctx.notes.append(f'budget reached after {len(results)} of {len(jobs)} scripts')
+                    pool.terminate()
+                    break
+    ctx.extra['rig_seconds'] = round(_realtime.time() - t0, 2)
+    ctx.extra['scripts_per_second'] = round(len(results) / max(_realtime.time() - t0, 0.001), 1)
+
+    # model side for the cases which do not carry their model output yet
+    need = [i for i in sorted(results) if cases[i][3] is None]
+    model_out: dict[int, list] = {}
+    if ctx.driver_ok and need:
+        for i, b in zip(need, run_model_batch([(cases[i][0], cases[i][1]) for i in need])):
+            model_out[i] = b
+
+    seen: set = set()
+    oracle = oracle_c05 if prop == 'C05' else oracle_c10
+    for i in sorted(results):
+        script, cfg, origin, model_b = cases[i]
+        res = results[i]
+        ctx.evaluations += 1
+        ctx.count('origin:' + origin.split(':')[0].split('/')[0])
+        ctx.count('len:%02d-%02d' % (len(script) // 10 * 10, len(script) // 10 * 10 + 9))
+        for ev in script:
+            ctx.count('ev:' + ev[0] + (':' + ev[2] if ev[0] == 'recv' else ''))
+        for k, v in sorted(cfg.items()):
+            ctx.count(f'cfg:{k}={v}')
+        if 'error' in res:
+            ctx.count('rig-error')
+            ctx.disagreements.append(Disagreement('session-rig', {'script': script, 'cfg': cfg}, None, res['error']))
+            continue
+        flat = [it for b in res['buckets'] for it in b]
+        for it in flat:
+            w = it.split(' ')
+            ctx.count('out:' + (w[0] if w[0] != 'send' else 'send ' + ' '.join(w[2:-1])) + ('' if w[0] != 'fsm' else ' ' + w[1]))
+        reacted = sum(1 for b in res['buckets'] if b)
+        if any(' OPEN ' in it for it in flat) and reacted >= 3:
+            ctx.nontrivial([script, sorted(cfg.items())])
+        ctx.sample({'origin': origin, 'cfg': cfg, 'script': script, 'observed': res['buckets']}, cap=3)
+        mb = model_b if model_b is not None else model_out.get(i)
+        if mb is not None:
+            d = first_difference(script, res['buckets'], mb)
+            if d is not None:
+                ctx.count('disagreement')
+                k, a, b = d
+                if len(ctx.disagreements) < 20:
+                    ctx.disagreements.append(Disagreement('session', {'script': script[: k + 1], 'cfg': cfg, 'origin': origin}, b, a))
+        for rule, what in (oracle(script, res, rfc_table) if prop == 'C05' else oracle(script, res, cfg, error_class)):
+            ctx.count('oracle-fail:' + rule)
+
+            def still(cand: list[list], rule: str = rule) -> bool:
+                r = run_case(cand, cfg)
+                if 'error' in r:
+                    return False
+                found = oracle(cand, r, rfc_table) if prop == 'C05' else oracle(cand, r, cfg, error_class)
+                return any(x[0] == rule for x in found)
+
+            small = shrink_script(script, cfg, still) if len(seen) < 60 else script
+            canon = canon_failure(rule, small, cfg)
+            key = json.dumps(canon, sort_keys=True)
+            if key in seen:
+                continue
+            seen.add(key)
+            r2 = run_case(small, cfg)
+            found = oracle(small, r2, rfc_table) if prop == 'C05' else oracle(small, r2, cfg, error_class)
+            desc = next((x[1] for x in found if x[0] == rule), what)
+            ctx.failures.append(Failure('session-script', canon, {'script': small, 'cfg': cfg}, desc))
+    if spec is not None:
+        spec.close()
+
+
+def replay_file(path: str, prop: str) -> int:
+    import json
+    from harness import common
+
+    data = json.loads(open(path).read())
+    rp = data['replay'] if 'replay' in data else data
+    script, cfg = rp['script'], rp.get('cfg', {})
+    res = run_case(script, cfg)
+    spec = common.Driver('drv_session')
+    rfc_table = {tuple(x.split('>')) for x in spec.ask('session rfctable').split(',')}
+
+    def error_class(words: str, state: str) -> list[str]:
+        out = spec.ask(f'session errorclass {words} {state}')
+        return [] if out == '-' else out.split(',')
+
+    print('cfg   :', cfg)
+    if 'error' in res:
+        print('rig error:', res['error'])
+        return 2
+    for ev, b in zip(script, res['buckets']):
+        print('  ', ev, '->', b)
+    found = oracle_c05(script, res, rfc_table) if prop == 'C05' else oracle_c10(script, res, cfg, error_class)
+    for rule, what in found:
+        print('FAILS', rule, ':', what)
+    model = run_model_batch([(script, cfg)])[0]
+    d = first_difference(script, res['buckets'], model)
+    print('model agrees' if d is None else f'model differs at event {d[0]}: impl {d[1]} model {d[2]}')
+    spec.close()
+    print('holds :', not found)
+    return 0 if not found else 1
